@@ -735,3 +735,125 @@ func ruleValueStrGuarded(r *Run) {
 		o.OK("%d Str() call(s), each under Type() == ValueTypeStr; %d AsString() call(s)", n, nAs)
 	}
 }
+
+// ruleTemplatePerStage (PV-FRESH): every stage gets its own compiled template. The template's
+// __line__ / __timestamp__ functions are closures over the stage that asked for it, so a template
+// object must never be shared between stages: every template compileTemplate returns is built by
+// template.New(...) in that very call (nothing remembered from an earlier call).
+func ruleTemplatePerStage(r *Run) {
+	p := r.P
+	ct := p.Func(enginePkg, "compileTemplate")
+	o := r.Ob("PV-FRESH", "logqlengine.compileTemplate", "each call builds a new template bound to the caller's own accessors: the returned template derives from template.New in this call, never from package-level state")
+	if ct == nil {
+		o.Fail("-", "function not found")
+		return
+	}
+	bad := false
+	var fromNew func(v ssa.Value, depth int) bool
+	fromNew = func(v ssa.Value, depth int) bool {
+		if v == nil || depth > 10 {
+			return false
+		}
+		v = unspill(stripTypeOnly(v))
+		switch x := v.(type) {
+		case *ssa.Extract:
+			return fromNew(x.Tuple, depth+1)
+		case *ssa.Call:
+			if callIs(x, "text/template", "New") {
+				return true
+			}
+			// builder-style methods of *template.Template return their receiver
+			if callee := staticCallee(x); callee != nil && callee.Pkg != nil && callee.Pkg.Pkg.Path() == "text/template" && len(x.Call.Args) > 0 {
+				return fromNew(x.Call.Args[0], depth+1)
+			}
+			// a same-package helper that builds it
+			if callee := staticCallee(x); callee != nil && callee.Blocks != nil && callee.Pkg == ct.Pkg {
+				ok := true
+				for _, ret := range returnsOf(callee) {
+					for _, lv := range phiLeaves(ret.Results[0]) {
+						if !isNilConst(lv) && !fromNew(lv, depth+1) {
+							ok = false
+						}
+					}
+				}
+				return ok
+			}
+		case *ssa.Phi:
+			for _, e := range x.Edges {
+				if !isNilConst(e) && !fromNew(e, depth+1) {
+					return false
+				}
+			}
+			return true
+		}
+		return false
+	}
+	n := 0
+	for _, ret := range returnsOf(ct) {
+		for _, lv := range phiLeaves(ret.Results[0]) {
+			if isNilConst(lv) {
+				continue
+			}
+			n++
+			if !fromNew(lv, 0) {
+				bad = true
+				o.Fail(r.pos(ret.Pos()), "a returned template is %s, which is not built by template.New in this call: a template (and the stage accessors bound into it) can be shared between stages", describe(lv, 1))
+			}
+		}
+	}
+	// and no package-level state is written with templates
+	for _, gf := range funcGroup(ct) {
+		for _, c := range callsIn(gf) {
+			if callee := staticCallee(c); callee != nil && callee.Pkg != nil && callee.Pkg.Pkg.Path() == "sync" && (callee.Name() == "Store" || callee.Name() == "LoadOrStore") {
+				bad = true
+				o.Fail(r.pos(c.Pos()), "compileTemplate stores into a sync.Map: compiled templates outlive the stage they were bound to")
+			}
+		}
+	}
+	if n == 0 {
+		bad = true
+		o.Fail(r.pos(ct.Pos()), "no template is returned")
+	}
+	if !bad {
+		o.OK("%d returned template(s), each from template.New(...) of this call", n).At(r.pos(ct.Pos()))
+	}
+}
+
+// ruleRewriteLoopsWhole (PV-WHOLE): a stage that applies a list of rewrites applies all of them:
+// the loops over the stage's own list fields in RenameLabel.Process / LabelFormat.Process cannot
+// be left early.
+func ruleRewriteLoopsWhole(r *Run) {
+	p := r.P
+	for _, typ := range []string{"RenameLabel", "LabelFormat"} {
+		fn := p.Method(enginePkg, typ, "Process")
+		o := r.Ob("PV-WHOLE", "logqlengine.(*"+typ+").Process loop", "every entry of the stage's rewrite list is applied to every line: the loop over the list is not left early")
+		if fn == nil {
+			o.Fail("-", "method not found")
+			continue
+		}
+		n, bad := 0, false
+		for _, gf := range funcGroup(fn) {
+			if gf.Parent() != nil {
+				continue
+			}
+			for _, l := range rangeIndexLoops(gf) {
+				_, base, ok := loadOfField(l.X)
+				if !ok || !(base == ssa.Value(fn.Params[0]) || originValueIn(base, funcGroup(fn)) == ssa.Value(fn.Params[0])) {
+					continue
+				}
+				n++
+				if ex := l.earlyExits(); len(ex) > 0 {
+					bad = true
+					o.Fail(r.pos(termPos(ex[0][0])), "the loop over the stage's list can be left before all entries are applied: the remaining rewrites are skipped for that line")
+				}
+			}
+		}
+		if n == 0 {
+			bad = true
+			o.Fail(r.pos(fn.Pos()), "no loop over a list field of the stage found")
+		}
+		if !bad {
+			o.OK("%d loop(s) over the stage's list, none can be left early", n).At(r.pos(fn.Pos()))
+		}
+	}
+}
